@@ -56,3 +56,23 @@ def body(ctx, shape):
         ctx.observe("exc", type(e).__name__)
         ctx.fail("text-form-rejected", f"{type(e).__name__}@{exc_site(e)}")
     ctx.require(ctx.eq(back, obj), "reparsed-definition-differs")
+    # hidden state: the first result is the caller's (its lists and dict are mutable), and rejected
+    # input in between must not matter - the same text has to parse to the same definition again
+    for v in vars(back).values():
+        if isinstance(v, list):
+            v.append("scribble")
+        elif isinstance(v, dict):
+            v["scribble"] = ["x"]
+            for lst in v.values():
+                if isinstance(lst, list):
+                    lst.append("scribble")
+    for bad in ("", "(", "( 1.2 DESC 'x )", "( 1.2 X-a ( 'b' )"):
+        try:
+            C.from_string(bad)
+        except ValueError:
+            pass
+    try:
+        again = C.from_string(text)
+    except Exception as e:  # noqa: BLE001
+        ctx.fail("second-parse-of-the-same-text-rejected", f"{type(e).__name__}@{exc_site(e)}")
+    ctx.require(ctx.eq(again, obj), "second-parse-of-the-same-text-differs")
